@@ -52,7 +52,7 @@ Print Assumptions C18_bs_partition_of_unity.
    2/(2k+1) for ALL DEGREES <= 15 (the property's range), by exact polynomial integration — a finite
    check (vm_compute in Q, lifted by forallb_forall and the Q/R transfer).
    The exact polynomial integral IS the Riemann integral (C18_poly_integral_is_RInt, end of file), so the
-   orthogonality is also stated with Coquelicot's is_RInt (C18_legendre_RInt_*).
+   orthogonality is also stated with Coquelicot is_RInt: C18_legendre_RInt_orthogonal, C18_legendre_RInt_norm.
    C18_legendre_orthogonal_partial: not the unbounded claim (all degrees) — the property quantifies sizes 1..15. *)
 Theorem C18_legendre_is_polynomial : forall k x, peval opsR (leg_poly opsR k) x = legendre opsR k x.
 Proof. exact leg_poly_eval. Qed.
